@@ -213,6 +213,7 @@ def execute(sc, res: Result, w, built, second_request=False):
         elif fin == "iter":
             for p in r:
                 emit(p, "iter")
+        res.info["finished_normally"] = True  # the finisher itself signalled a normal end of body
         # reads after the end
         for how, fn in (("read(5)", lambda: r.read(5, decode_content=d)), ("read()", lambda: r.read(decode_content=d)), ("read1(3)", lambda: r.read1(3, decode_content=d))):
             p = fn()
